@@ -21,3 +21,24 @@ Theorem ff_exact : forall parents pick,
   c1 < n -> can_fast_forward parents pick n fuel c1 c2 = Some b -> (b = true <-> Anc parents c1 c2).
 Proof. exact can_ff_exact. Qed.
 Print Assumptions ff_exact.
+
+(* ---------- history walks ---------- *)
+From DV Require Import Walk WalkP TopoP.
+
+(* a walk without excluded commits yields every commit reachable from the
+   starting points exactly once, whatever the timestamps (the pop order is an
+   arbitrary function of the queue) *)
+Theorem walk_yields_reachable_once : forall parents pick include fuel l,
+  walk parents pick fuel include = Some l ->
+  NoDup l /\ forall c, In c l <-> reach parents include c.
+Proof. intros parents pick include fuel l. apply walk_exact_lemma. Qed.
+Print Assumptions walk_yields_reachable_once.
+
+(* _topo_reorder: the output holds entries only, none twice, and no commit
+   comes after one of its parents *)
+Theorem topo_never_parent_before_child : forall parents fuel entries l, NoDup entries ->
+  topo parents fuel entries = Some l ->
+  NoDup l /\ (forall e, In e l -> In e entries) /\
+  forall l1 c l2, l = l1 ++ c :: l2 -> forall p, In p l1 -> ~ In p (parents c).
+Proof. intros parents fuel entries l. apply topo_order_lemma. Qed.
+Print Assumptions topo_never_parent_before_child.
